@@ -611,6 +611,13 @@ func run(c *rt.Ctx) {
 					cases = append(cases, Case{Dialect: d, Scenario: sc, Formatter: f, Indent: ind})
 				}
 				cases = append(cases, Case{Dialect: d, Scenario: sc, Formatter: f, Unnamed: true})
+				// a plan delimiter is a directive of the atlas format; the other formatters must still
+				// write files their readers split correctly when the plan carries one
+				if f != "atlas" {
+					for _, dl := range []string{"\n\n", "//", "\nGO", "$$"} {
+						cases = append(cases, Case{Dialect: d, Scenario: sc, Formatter: f, Delim: dl})
+					}
+				}
 			}
 			// (a delimiter must be expressible by the directive grammar — printable ASCII — and must not be a
 			// quote character, which can never end a statement unambiguously: those are not generated)
